@@ -359,14 +359,15 @@ def setsOf (d : StructDef) (σ : PyState) : R (List (String × Val)) :=
     | none => .error .missing
 
 /-- `Base._deserialize(buffer, instance)`: `size_ = len(buffer)` unless the class has a size member of its own, the
-    member statements, the members set on the instance; returns them with `(size_ - len(buffer), size_)` -/
+    member statements, the members set on the instance; returns them with `(<size> - len(buffer), <size>)`, `<size>`
+    the local of the size member (`size_` without one) -/
 def emittedBaseDeserialize (S : Schema) (T : String → Bytes → Bytes) (r : Rec) (da : StructDef) (payload : Bytes) :
     R (List (String × Val) × Int × Int) := do
   let σ0 : PyState := { buffer := payload }
-  let σ0 := if (ownFields da).any (·.name == "size") then σ0 else σ0.set "size_" (.int (payload.length : Int))
+  let σ0 := if (ownSizeMember da).isSome then σ0 else σ0.set "size_" (.int (payload.length : Int))
   let σ ← execItems S T r (emitDeserialize S da) σ0
   let sets ← setsOf da σ
-  let sz ← σ.getInt "size_"
+  let sz ← σ.getInt (sizeLocal da)
   .ok (sets, sz - (σ.buffer.length : Int), sz)
 
 /-- `<Type>.deserialize(payload)` of a concrete class: the base class's `_deserialize` and the window it returns
@@ -393,8 +394,7 @@ def emittedDeserialize (S : Schema) (T : String → Bytes → Bytes) (r : Rec) (
   a size-limited member -- are not `type` / `property` / `size` (the local is called `type_` / `property_` /
   `size_`); the size member of a byte array is not `type` / `property` (the discriminant of a condition is
   written with its generated name since the repair of `generate_condition`);
-* the struct's size member, and only it, is called `size` (the `_deserialize` of a base class returns the window
-  `(size_ - len(buffer), size_)`, and `size_` is the size member's local only under that name), and no member `size_`;
+* only the struct's size member is called `size`, and no member `size_`;
 * count / byte-size / size-of members are unsigned (a negative value would make `buffer[:n]` count from the end);
 * a condition on an enum-typed discriminant names a member of the enum, and enum member names are unique;
 * the own members of a class with a base class refer (condition, count, size, limit) to own members only. -/
@@ -403,7 +403,7 @@ def localNameOk (n : String) : Bool := rawNameOk n && n != "size"
 
 def wfgdKind (f : Field) : Bool :=
   (match f.kind with
-    | .sizeF _ => f.name == "size"
+    | .sizeF _ => true
     | _ => f.name != "size") &&
   (match f.kind with
     | .count _ s _ _ | .byteSize _ s _ | .sizeOf _ s _ => !s
